@@ -10,6 +10,38 @@ from pymbolic.compiler import CompiledExpression
 from pymbolic.primitives import Call, Expression, Variable, expr_dataclass
 
 
+class UConst:
+    """a user constant class (register_constant_class): its hash derives from a string, so it
+    differs from one PYTHONHASHSEED to the next, its repr does not"""
+
+    def __init__(self, tag):
+        self.tag = tag
+
+    def __eq__(self, other):
+        return type(other) is UConst and other.tag == self.tag
+
+    def __ne__(self, other):
+        return not self.__eq__(other)
+
+    def __hash__(self):
+        return hash(("UConst", self.tag))
+
+    def __repr__(self):
+        return f"UConst({self.tag!r})"
+
+    def __getstate__(self):
+        return {"tag": self.tag}
+
+    def update_persistent_hash(self, key_hash, key_builder):
+        key_builder.rec(key_hash, self.tag)
+
+
+import pymbolic.primitives as _prim  # noqa: E402
+
+if UConst not in _prim.VALID_CONSTANT_CLASSES:
+    _prim.register_constant_class(UConst)
+
+
 @expr_dataclass()
 class UTag(Expression):
     child: object
